@@ -21,6 +21,7 @@ type c10Scenario struct {
 	Cap     int        `json:"cap"`
 	Progs   [][]string `json:"programs"`              // per thread: operation names
 	Policy  bool       `json:"push_policy,omitempty"` // an accept-everything push policy is installed (Push takes the policy path)
+	Kind    string     `json:"kind,omitempty"`
 }
 
 func (sc c10Scenario) String() string {
@@ -32,7 +33,7 @@ func (sc c10Scenario) String() string {
 	if sc.Policy {
 		pol = " push-policy"
 	}
-	return fmt.Sprintf("len=%d fifo=%v cap=%d%s {%s}", sc.InitLen, sc.FIFO, sc.Cap, pol, strings.Join(p, " || "))
+	return fmt.Sprintf("%s len=%d fifo=%v cap=%d%s {%s}", sc.Kind, sc.InitLen, sc.FIFO, sc.Cap, pol, strings.Join(p, " || "))
 }
 
 func (sc c10Scenario) opSig() string {
@@ -85,10 +86,14 @@ func (sc c10Scenario) initial() []any {
 
 func (sc c10Scenario) mk() stackage.Stack {
 	var s stackage.Stack
+	kind := sc.Kind
+	if kind == "" {
+		kind = "LIST"
+	}
 	if sc.Cap > 0 {
-		s = stackage.List(sc.Cap)
+		s = newStackKind(kind, sc.Cap)
 	} else {
-		s = stackage.List()
+		s = newStackKind(kind)
 	}
 	if sc.FIFO {
 		s.SetFIFO(true)
@@ -247,6 +252,11 @@ type c10Plan struct {
 }
 
 func c10Scenarios(c *Ctx) (out []c10Scenario, bounds []int) {
+	defer func() {
+		for i := range out {
+			out[i].Kind = kindNames[i%5] // every kind is sampled evenly
+		}
+	}()
 	cfgs := func(maxLen int) [][3]int { // initLen, fifo, cap
 		var o [][3]int
 		for n := 0; n <= maxLen; n++ {
